@@ -36,10 +36,18 @@ pub struct IPFixParser {
 
 impl IPFixParser {
     pub fn parse(&mut self, packet: &[u8]) -> Result<ParsedNetflow, NetflowParseError> {
+        self.parse_slice(packet)
+            .map(|(remaining, result)| ParsedNetflow::new(remaining, result))
+    }
+
+    /// Same as `parse`, but hands back the unparsed tail as a slice of the input instead of
+    /// copying it (the chained-packet loop of `parse_bytes` only needs to know where it starts).
+    pub(crate) fn parse_slice<'a>(
+        &mut self,
+        packet: &'a [u8],
+    ) -> Result<(&'a [u8], NetflowPacket), NetflowParseError> {
         IPFix::parse(packet, self)
-            .map(|(remaining, ipfix)| {
-                ParsedNetflow::new(remaining, NetflowPacket::IPFix(ipfix))
-            })
+            .map(|(remaining, v)| (remaining, NetflowPacket::IPFix(v)))
             .map_err(|e| {
                 NetflowParseError::Partial(PartialParse {
                     version: 10,
